@@ -105,7 +105,7 @@ def run(ctx, replay=None):
     for _ in range(ctx.pick(1500, 30000)):
         m = gen_jump.rmodel(rnd, maxlen=rnd.choice([6, 14, 40]))
         cases.append(make_case(m, limit=rnd.choice([300, 300, 40, rnd.randint(1, 25)]), dbg=rnd.random() < 0.3,
-                               globs=gen_jump.default_globals(rnd) + [realrun.host_global('probe')]))
+                               globs=gen_jump.default_globals(rnd) + [realrun.host_global('probe')], prerun=rnd.random() < 0.3))
     F.judge(ctx, 'Trace_Core', cases, canaries, invariants=INVS, describe=describe, nontrivial=nontrivial)
     statuses = {}
     for c in cases:
